@@ -227,7 +227,7 @@ func execFuzzCase(c FuzzCase) kit.Outcome {
 // TestFuzzSeeds runs the fuzz oracle over rapid-generated byte streams (valid pipelines with random
 // splices, truncations and byte flips): the always-on, seed-reproducible part of layer 4.
 func TestFuzzSeeds(t *testing.T) {
-	kit.Check(t, kit.Spec[FuzzCase]{Sub: "fuzz", Quick: 1500, Thorough: 40000, Gen: genFuzzCase, Exec: execFuzzCase})
+	kit.Check(t, kit.Spec[FuzzCase]{Sub: "fuzz", Quick: 1500, Thorough: 40000, Gen: genFuzzCase, Exec: execFuzzCase, TrackCase: true})
 }
 
 var hostile = []string{"\n", "\r", "\r\n", "$-2\r\n", "$-1\r\n", "*-1\r\n", "*0\r\n", "$0\r\n\r\n", "*1\r\n", "$5\r\n", ":1\r\n", "+OK\r\n",
